@@ -141,8 +141,10 @@ def sqlalchemy(class_def, parse_original_whitespace=False):
         type(class_def).__name__
     )
 
+    table = sqlalchemy_class_to_table(class_def, parse_original_whitespace)
     return sqlalchemy_table(
-        sqlalchemy_class_to_table(class_def, parse_original_whitespace)
+        # hybrid: `__table__ = Table("name", …)` is bound to `__table__` not to the name of the table
+        table.value if isinstance(table, Assign) else table
     )
 
 
